@@ -20,23 +20,50 @@ def simplify_preserves_denotation_statement (excl fmark : List Char) : Prop :=
   ∀ (raw : List Char) (multi fstr : Bool), (multi = false → plainLexable raw = true) →
     Preserves excl fmark (parseStr raw multi fstr)
 
-/-- **full theorem**, for every excluded list that contains the quote and the backslash and every marker
-list that contains `@` (the list of the pending repair `['\n', "'", '\\']`) -/
-theorem simplify_preserves_denotation (excl fmark : List Char)
-    (hq : '\'' ∈ excl) (hb : '\\' ∈ excl) (hat : '@' ∈ fmark) :
-    simplify_preserves_denotation_statement excl fmark := by
-  intro raw multi fstr hlex
+/-- **general theorem**: for every excluded list that contains the quote and the backslash and EVERY
+placeholder recogniser that accepts at least the values the interpreter substitutes into (`hasSubst` =
+the regex `@([_a-zA-Z][_0-9a-zA-Z]*)@` of `InterpreterBase.evaluate_fstring`), every string token keeps its
+denotation.  A recogniser that forgets part of the identifier grammar (e.g. a leading `_`) is not covered —
+and is in fact wrong, see `recogniser_counterexample`. -/
+theorem simplify_preserves_denotation_recogniser (excl : List Char) (keep : List Char → Bool)
+    (hq : '\'' ∈ excl) (hb : '\\' ∈ excl) (hk : ∀ v, hasSubst v = true → keep v = true)
+    (raw : List Char) (multi fstr : Bool) (hlex : multi = false → plainLexable raw = true) :
+    PreservesWith excl keep (parseStr raw multi fstr) := by
   have h1 := simplifyMulti_denote excl hq hb raw multi fstr hlex
   have hc := consistent_simplifyMulti excl _ (consistent_parseStr raw multi fstr)
-  have h2 := simplifyF_denote fmark hat _ hc
-  have e : simplify excl fmark true (parseStr raw multi fstr) =
-      simplifyF fmark (simplifyMulti excl (parseStr raw multi fstr)) := by simp [simplify]
-  unfold Preserves
+  have h2 := simplifyFWith_denote keep hk _ hc
+  have e : simplifyWith excl keep true (parseStr raw multi fstr) =
+      simplifyFWith keep (simplifyMulti excl (parseStr raw multi fstr)) := by simp [simplifyWith]
+  unfold PreservesWith
   rw [e]
   refine ⟨fun hm => ?_, ?_⟩
   · rw [h2.2.2]
     exact h1.2 (by rw [← h2.2.1]; exact hm)
   · rw [h2.1, h1.1]
+
+/-- a recogniser that only knows identifiers starting with a letter drops the `f` of `f'lib-@_name@.so'`,
+which the interpreter does substitute into: the hypothesis on the recogniser cannot be weakened to
+"accepts letter-initial placeholders" -/
+theorem recogniser_counterexample :
+    ¬ PreservesWith ['\n', '\'', '\\']
+        (fun v => v.any (fun c => c == '@') && (match v.dropWhile (fun c => c != '@') with
+                                                 | _ :: c :: _ => MesonModel.Py.isAlpha c
+                                                 | _ => false))
+        (parseStr "lib-@_name@.so".toList false true) := by
+  intro h
+  have := h.2
+  revert this
+  decide
+
+/-- **full theorem** for the recogniser as coded (`'@' in value`), for every excluded list that contains the
+quote and the backslash and every marker list that contains `@` (the list of the repair `['\n', "'", '\\']`) -/
+theorem simplify_preserves_denotation (excl fmark : List Char)
+    (hq : '\'' ∈ excl) (hb : '\\' ∈ excl) (hat : '@' ∈ fmark) :
+    simplify_preserves_denotation_statement excl fmark := by
+  intro raw multi fstr hlex
+  have h := simplify_preserves_denotation_recogniser excl (markerKeep fmark) hq hb
+    (markerKeep_of_hasSubst fmark hat) raw multi fstr hlex
+  simpa [PreservesWith, Preserves, simplifyWith, simplify, simplifyF] using h
 
 /-- the list as coded on the pinned tree -/
 def pinnedExcluded : List Char := ['\n', '\'']
@@ -90,6 +117,22 @@ theorem simplify_preserves_denotation_partial (excl fmark : List Char)
 applies to the code as it is now -/
 theorem live_excluded_has_quote : '\'' ∈ simplifyExcluded := by decide
 theorem live_markers_have_at : '@' ∈ fstringMarkers := by decide
+
+/-- the live formatter keeps the `f` on every probed placeholder shape that the interpreter substitutes into
+(plain literal: after escape decoding; triple-quoted: verbatim).  Shapes cover the identifier grammar
+(leading `_`, digits inside, single letter), adjacent placeholders and near misses. -/
+def shapesOk (t : List (List Nat × Bool × Bool)) : Bool :=
+  t.all (fun e =>
+    let v := e.1.map Char.ofNat
+    (!hasSubst (decodeEscapes v) || e.2.1) && (!hasSubst v || e.2.2))
+
+/-- first shape on which the live recogniser is too narrow (evaluated by the harness when the obligation fails) -/
+def shapesWitness (t : List (List Nat × Bool × Bool)) : Option (List Nat) :=
+  (t.find? (fun e =>
+    let v := e.1.map Char.ofNat
+    !((!hasSubst (decodeEscapes v) || e.2.1) && (!hasSubst v || e.2.2)))).map (·.1)
+
+theorem live_fstring_shapes_ok : shapesOk fstringShapes = true := by decide
 
 theorem simplify_live_partial (raw : List Char) (multi fstr : Bool)
     (hlex : multi = false → plainLexable raw = true) (hnb : multi = true → '\\' ∉ raw) :
